@@ -1363,11 +1363,21 @@ def run(ctx):
     bigs = [c for c in cases if len(c["wire"]) >= 20000]
     groups = batch(small, 60) + batch(bigs, 2)
 
+    def hung():
+        """a hang has been confirmed in this run: the run is a violation, what is left is skipped"""
+        return getattr(ctx, "_timeouts", 0) >= 1
+
+    SKIP = ([], [], {"kind": "skipped"})
+
     def run_group(g):
         script = "\n".join(l for c in g for l in c["script"]) + "\n"
-        return script, common.compare_streams(ctx, script, h, d, "ws.decoder", timeout=(150 if quick else 450))
+        if hung():
+            return script, SKIP
+        return script, common.compare_streams(ctx, script, h, d, "ws.decoder", timeout=(100 if quick else 450))
 
     for g, (script, (impl, model, f)) in zip(groups, common.pmap(run_group, groups)):
+        if f and f["kind"] == "skipped":
+            continue
         if f and f["kind"] == "crash":
             fails.append(f)
             continue
@@ -1433,9 +1443,32 @@ def run(ctx):
 
     def run_f(g):
         script = "\n".join(g) + "\n"
-        return common.compare_streams(ctx, script, h, d, "ws.functions", timeout=(120 if quick else 360))
+        if hung():
+            return SKIP
+        return common.compare_streams(ctx, script, h, d, "ws.functions", timeout=(100 if quick else 360))
+
+    def result():
+        return {
+            "evaluations": evals, "distinct_nontrivial": len(nontrivial),
+            "rule": "decoder case = (wire bytes, read schedule, caller lengths) with >= 2 decode calls; function op = distinct input; e2e = distinct RFB script x framing x segmentation",
+            "samples": samples, "distribution": dist, "failures": fails[:16],
+            "exhaustive": True,
+            "partial": ["the error of strict_run is shown to occur per call for the valid part (decoder_progress), not as a liveness theorem",
+                        "wss (TLS) transport not modelled",
+                        "threaded loop: covered by the end-to-end run (TCP vs WebSocket through rfbRunEventLoop(...,TRUE)) only, not by the model",
+                        "timing is outside the decoder model: a lone control/empty frame followed by silence lets rfbReadExact time out (finding ws-lone-control-frame-timeout, probed end to end)"],
+            "assumptions": ["read callback returns a non-empty prefix of the pending bytes, EAGAIN, 0 or a hard error",
+                            "the caller passes len > 0 and a buffer of at least len bytes",
+                            "valid client frames: control frames <= 125 bytes (RFC 6455 5.5), text frames carry the base64 encoding of their data"],
+            "trusted_extra": ["independent RFC 6455 framer/parser + Python base64/hashlib as direct oracle"],
+        }
+
+    if hung() and n_counter():
+        return result()
 
     for g, (impl, model, f) in zip(fgroups, common.pmap(run_f, fgroups)):
+        if f and f["kind"] == "skipped":
+            continue
         if f and f["kind"] == "crash":
             fails.append(f)
             continue
@@ -1451,14 +1484,21 @@ def run(ctx):
                 add_exact({"kind": "exact", "what": "ws.%s" % k, "script": [op[:4000]], "impl": [ob[:2000]], "model": [model[i][:2000]]})
             nontrivial.add(op[:200])
 
+    if hung() and n_counter():
+        return result()
+
     # ---- end to end: same RFB script over TCP and over WebSocket
     e2e = e2e_bigcut_scripts() + [e2e_script(rng) for _ in range(30 if quick else 300)]
 
     def run_e(sm):
-        rc, impl, err = ctx.run_lines(h, sm[0], timeout=(150 if quick else 450))
+        if hung():
+            return -99, [], "skipped"
+        rc, impl, err = ctx.run_lines(h, sm[0], timeout=(100 if quick else 450))
         return rc, impl, err
 
     for (script, meta), (rc, impl, err) in zip(e2e, common.pmap(run_e, e2e)):
+        if rc == -99:
+            continue
         evals += 1
         if rc != 0:
             fails.append({"kind": "crash", "what": "ws.e2e: harness exit %d" % rc, "script": [l[:300] for l in script.splitlines()][:60],
@@ -1475,10 +1515,15 @@ def run(ctx):
         if len(samples) < 6:
             samples.append({"script": [l[:200] for l in script.splitlines()][:12], "impl": [x[:200] for x in impl][:12]})
 
+    if hung() and n_counter():
+        return result()
+
     # ---- hostile first frames on the context the real handshake created
     hostile = hostile_first_scripts()
     dist["e2e"]["hostile-first"] = 0
     for (script, meta), (rc, impl, err) in zip(hostile, common.pmap(run_e, hostile)):
+        if rc == -99:
+            continue
         evals += 1
         dist["e2e"]["hostile-first"] += 1
         if rc != 0:
@@ -1491,11 +1536,16 @@ def run(ctx):
                           "script": script.splitlines(), "impl": [x[:400] for x in impl], "hostile_meta": meta})
         nontrivial.add(script[:400])
 
+    if hung() and n_counter():
+        return result()
+
     # ---- threaded loop: TCP vs WebSocket, several messages per frame in every protocol state
     thr = thr_cases(rng)
     tcp_ref = {}
 
     def run_t(op):
+        if hung():
+            return -99, [], "skipped"
         return ctx.run_lines(h, op + "\n", timeout=120)
 
     tcp_ops = sorted(set(c["tcp"] for c in thr))
@@ -1503,9 +1553,11 @@ def run(ctx):
         tcp_ref[op] = (rc, impl[0] if impl else "", err)
     dist["e2e"]["threaded"] = 0
     for c, (rc, impl, err) in zip(thr, common.pmap(run_t, [c["ws"] for c in thr], workers=4)):
+        trc, tob, terr = tcp_ref[c["tcp"]]
+        if rc == -99 or trc == -99:
+            continue
         evals += 1
         dist["e2e"]["threaded"] += 1
-        trc, tob, terr = tcp_ref[c["tcp"]]
         if rc != 0 or trc != 0:
             fails.append({"kind": "crash", "what": "ws.threaded: harness exit %d/%d" % (rc, trc), "script": [c["tcp"][:2000], c["ws"][:4000]],
                           "detail": err or terr})
@@ -1516,6 +1568,9 @@ def run(ctx):
                           "script": [c["tcp"], c["ws"]], "impl": [tob[:600], (impl[0] if impl else "")[:600]],
                           "thr_case": {k: c[k] for k in ("auth", "b64", "name", "ev", "frames")}})
         nontrivial.add(c["ws"][:400])
+
+    if hung() and n_counter():
+        return result()
 
     # ---- partial greeting at connection time (webSocketsCheck / rfbPeekExactTimeout)
     pk = corpus_pk + peek_cases()
@@ -1543,21 +1598,7 @@ def run(ctx):
             fails.append({"kind": "oracle", "what": "C09 end-to-end oracle (lone %s frame)" % kind, "detail": o,
                           "script": script.splitlines(), "impl": [x[:300] for x in impl], "finding": LONE_CONTROL})
 
-    return {
-        "evaluations": evals, "distinct_nontrivial": len(nontrivial),
-        "rule": "decoder case = (wire bytes, read schedule, caller lengths) with >= 2 decode calls; function op = distinct input; e2e = distinct RFB script x framing x segmentation",
-        "samples": samples, "distribution": dist, "failures": fails[:16],
-        "exhaustive": True,
-        "partial": ["stream-level strictness (valid prefix, then the offending frame yields the error) is proved per call (strict_* theorems, every state / every oracle), not as one run theorem",
-                    "handshake: response construction is proved, the byte-wise request scanner is tied by the differential run only",
-                    "wss (TLS) transport not modelled",
-                    "timing is outside the decoder model: a lone control/empty frame followed by silence lets rfbReadExact time out (finding ws-lone-control-frame-timeout, probed end to end)"],
-        "assumptions": ["read callback returns a non-empty prefix of the pending bytes, EAGAIN, 0 or a hard error",
-                        "the caller passes len > 0 and a buffer of at least len bytes",
-                        "fixes/C09-ws-header-split.diff and fixes/C09-control-frame-limits.diff are applied (the model follows the fixed decoder)",
-                        "valid client frames: control frames <= 125 bytes (RFC 6455 5.5), text frames carry the base64 encoding of their data"],
-        "trusted_extra": ["independent RFC 6455 framer/parser + Python base64/hashlib as direct oracle"],
-    }
+    return result()
 
 
 META = {
